@@ -42,7 +42,8 @@ PROPS = {
     },
     "C08": {
         "proof_files": ["Proofs/ManagerFacts.v"],
-        "runs": [{"engine": "manager", "args": [], "n_quick": 500, "n_thorough": 40000}],
+        "runs": [{"engine": "manager", "args": [], "n_quick": 500, "n_thorough": 40000},
+                 {"engine": "manager", "args": ["-mode", "hang"], "n_quick": 8, "n_thorough": 60}],
         "trivial_tags": [r"^e0/"],
         "rule": "random scripts (6-30 ops) on the real endpoint.Manager: 1-3 scripted providers x 0-3 endpoints, probe health flips incl. "
                 "network-unreachable, provider errors (plain/unreachable), clock advances through the manager's testNow hook, queries whose "
@@ -55,7 +56,8 @@ PROPS = {
     },
     "C09": {
         "proof_files": ["Proofs/ManagerFacts.v", "Mutants/ManagerLock.v"],
-        "runs": [{"engine": "manager", "args": [], "n_quick": 500, "n_thorough": 40000}],
+        "runs": [{"engine": "manager", "args": [], "n_quick": 500, "n_thorough": 40000},
+                 {"engine": "manager", "args": ["-mode", "hang"], "n_quick": 8, "n_thorough": 60}],
         "trivial_tags": [r"^e0/"],
         "rule": "same scripts as C08, judged additionally by the deadlock watchdog (a Do / election that does not complete within 2 s "
                 "while the script expects it) and by process crashes; script 0 is the corpus case bootstrap-with-unreachable-provider "
